@@ -19,8 +19,10 @@ def build(cls, rng, reactions):
     rx = []
     if reactions:
         rx = [([], ['A'], 'massaction', {'k': rng.uniform(1, 8)}), (['A'], ['B'], 'massaction', {'k': rng.uniform(0.2, 2)})]
-    M = cls(species=['A', 'B', 'X', 'S'], reactions=rx, parameters=[('r', rate)], initial_condition_dict={'A': 3, 'B': 0, 'X': 0, 'S': 0})
+    M = cls(species=['A', 'B', 'X', 'S', 'Q'], reactions=rx, parameters=[('r', rate), ('pp', 0.0)], initial_condition_dict={'A': 3, 'B': 0, 'X': 0, 'S': 0, 'Q': 0})
     M.create_rule('ode', {'equation': 'r', 'target': 'X'})                 # dX/dt = r by Euler steps of the grid spacing
+    M.create_rule('ode', {'equation': 'r', 'target': 'pp'})                # the same for a PARAMETER target ...
+    M.create_rule('assignment', {'equation': 'Q = pp'}, 'repeated')        # ... made visible through a repeated rule
     M.create_rule('assignment', {'equation': 'S = A + 2*B'}, 'repeated')   # holds on every row
     return M, rate
 
@@ -30,9 +32,11 @@ def check_rows(call, tt, data, idx, rate, dt):
         if abs(data[m][idx['S']] - (data[m][idx['A']] + 2 * data[m][idx['B']])) > 1e-9:
             return dict(reproduced=True, call=call, what='repeated rule S = A + 2B in row %d' % m, observed=data[m].tolist(), expected='S == A + 2B')
     for m in range(2, len(tt)):
-        adv = data[m][idx['X']] - data[m - 1][idx['X']]
-        if abs(adv - rate * dt) > 1e-9:
-            return dict(reproduced=True, call=call, what='ODE rule advance of X between rows %d and %d (grid step %r)' % (m - 1, m, dt), observed=float(adv), expected=rate * dt)
+        for tgt in ('X', 'Q'):
+            adv = data[m][idx[tgt]] - data[m - 1][idx[tgt]]
+            if abs(adv - rate * dt) > 1e-9:
+                return dict(reproduced=True, call=call, what='ODE rule advance of %s between rows %d and %d (grid step %r)' % ('X' if tgt == 'X' else 'the parameter pp (seen through Q = pp)', m - 1, m, dt),
+                            observed=float(adv), expected=rate * dt)
     return None
 
 
